@@ -57,7 +57,9 @@ func collectSlots(v any, depth int, out *[]slot) {
 var HostileKeys = []string{"a.a", "x.x", "", "a.b", "default", "example", "x-ext", "$ref", "items", "properties", "0", "é", "a b", "paths", "allOf", "X-Internal-Id", "x", "X-", "xx-y"}
 
 // MutateKinds lists the structural edits of Mutate.
-var MutateKinds = []string{"delete", "retype", "null", "rename", "transplant", "duplicate", "retarget-ref", "ref-with-sibling", "hostile-name", "string-case", "blank-string", "plant-value", "self-ref-definition", "respell-duplicate-number", "key-case", "mixed-duplicate", "null-member"}
+var MutateKinds = []string{"delete", "retype", "null", "rename", "transplant", "duplicate", "retarget-ref", "ref-with-sibling", "hostile-name", "string-case", "blank-string", "plant-value", "self-ref-definition", "respell-duplicate-number", "key-case", "mixed-duplicate", "null-member",
+	// plant-value has eight sub-kinds of its own: it is listed three times
+	"plant-value", "plant-value"}
 
 // Mutate applies one structural edit to a decoded document (in place) and returns
 // the kind of edit and the depth at which it landed (0 = a top-level member); ok is
@@ -236,7 +238,23 @@ func Mutate(t *rapid.T, doc map[string]any) (kind string, depth int, ok bool) {
 		c := PickUniform(t, typed, "typedslot")
 		m := c.get().(map[string]any)
 		var v any
-		switch rapid.IntRange(0, 6).Draw(t, "plantedkind") {
+		switch UniformIndex(t, 8, "plantedkind") {
+		case 7:
+			// a numeric constraint that does not fit the declared type (a fractional or huge multipleOf / bound on an
+			// integer), with a value that meets it: the library then takes its "constraint nevertheless validated" branches
+			m["type"] = "integer"
+			delete(m, "items")
+			if rapid.Bool().Draw(t, "int32format") {
+				m["format"] = "int32"
+			} else {
+				delete(m, "format")
+			}
+			if UniformIndex(t, 4, "oddconstraint") != 0 {
+				m["multipleOf"] = PickUniform(t, []any{json.Number("2.5"), json.Number("0.5"), json.Number("2.5"), json.Number("1e30")}, "oddfactor")
+			} else {
+				m[PickUniform(t, []string{"maximum", "minimum"}, "oddbound")] = PickUniform(t, []any{json.Number("2.5"), json.Number("4294967296"), json.Number("1e30")}, "oddvalue")
+			}
+			v = PickUniform(t, []any{Number(5), Number(0), Number(10), Number(3)}, "oddplanted")
 		case 5:
 			// an enumeration (and uniqueItems) mixing a scalar with a container
 			m["enum"] = []any{Scalar(t), []any{Scalar(t)}, map[string]any{Name(t): Scalar(t)}}
